@@ -53,6 +53,13 @@ class Ctx:
         self.notes = []
         self.analysed_functions = set()
         self.opaque = []
+        try:
+            from . import summ as _summ
+            _summ.ENUMS.clear()
+            for en, d in F.get('enums', {}).items():
+                _summ.ENUMS[en] = {e['v']: '%s::%s' % (d.get('qname', en), e['name']) for e in d.get('enumerators', [])}
+        except Exception:
+            pass
 
     # ---- bookkeeping
     def rule(self, rid, desc, floor=1):
@@ -152,6 +159,24 @@ class Ctx:
     def require(self, cond, what):
         if not cond:
             raise AnalysisBroken('%s: %s' % (self.prop, what))
+
+
+def check_anchor_fields(ctx):
+    """the data members the rules of this property refer to by name must still exist (tables/anchors.json)"""
+    path = os.path.join(VERIF, 'tsa', 'tables', 'anchors.json')
+    try:
+        table = json.load(open(path)).get('anchors', {})
+    except (OSError, ValueError) as e:
+        raise AnalysisBroken('anchors.json unreadable: %s' % e)
+    for rn, fields in table.get(ctx.prop, {}).items():
+        rec = ctx.F['records'].get(rn)
+        if rec is None:
+            raise AnalysisBroken('%s: anchor record vanished: %s' % (ctx.prop, rn))
+        have = {fl['name'] for fl in rec['fields']}
+        missing = [x for x in fields if x not in have]
+        if missing:
+            raise AnalysisBroken('%s: anchor field vanished: %s::%s (renamed or removed data member; the rules refer to it by name)'
+                                 % (ctx.prop, rn, ', '.join(missing)))
 
 
 def load_known():
